@@ -95,3 +95,66 @@ def reads_ambient(fn):
         if isinstance(n, ast.Call) and isinstance(n.func, ast.Name) and n.func.id in ("id", "hash", "input"):
             bad.add(n.func.id + "()")
     return bad
+
+
+def attr_grows_only(cls_node, attr, init=("__init__", "reset"), base="self"):
+    """within the class: outside `init`, the attribute base.attr is never rebound, never shrunk or reordered; the
+    only mutations are .append/.extend.  Returns the list of offending (method, line, text)."""
+    bad = []
+    text = base + "." + attr
+    for fn in cls_node.body:
+        if not isinstance(fn, ast.FunctionDef) or fn.name in init:
+            continue
+        parents = {}
+        for n in ast.walk(fn):
+            for ch in ast.iter_child_nodes(n):
+                parents[ch] = n
+        for n in ast.walk(fn):
+            if isinstance(n, ast.Attribute) and ast.unparse(n) == text:
+                p = parents.get(n)
+                if isinstance(p, ast.AnnAssign) and p.value is None:
+                    continue        # a bare annotation binds nothing
+                if isinstance(n.ctx, (ast.Store, ast.Del)):
+                    bad.append((fn.name, n.lineno, "rebinds " + text))
+                elif isinstance(p, ast.Subscript) and isinstance(p.ctx, (ast.Store, ast.Del)):
+                    bad.append((fn.name, n.lineno, "stores into " + text))
+                elif isinstance(p, ast.Attribute) and p.attr in MUTATORS and p.attr not in ("append", "extend"):
+                    bad.append((fn.name, n.lineno, "calls ." + p.attr + " on " + text))
+                elif isinstance(p, ast.AugAssign) and p.target is n:
+                    bad.append((fn.name, n.lineno, "augmented assignment to " + text))
+    return bad
+
+
+def name_grows_only(fn_nodes, name):
+    """module-level list `name`: in the given functions it is only read, .append-ed or .extend-ed (plus the
+    documented reset at the start of run(): .clear() / del name[k:] are reported separately by the caller)"""
+    bad = []
+    for fn in fn_nodes:
+        parents = {}
+        for n in ast.walk(fn):
+            for ch in ast.iter_child_nodes(n):
+                parents[ch] = n
+        for n in ast.walk(fn):
+            if isinstance(n, ast.Name) and n.id == name:
+                p = parents.get(n)
+                if isinstance(n.ctx, (ast.Store, ast.Del)):
+                    bad.append((fn.name, n.lineno, "rebinds " + name))
+                elif isinstance(p, ast.Subscript) and isinstance(p.ctx, (ast.Store, ast.Del)):
+                    bad.append((fn.name, n.lineno, "stores into / deletes from " + name))
+                elif isinstance(p, ast.Attribute) and p.attr in MUTATORS and p.attr not in ("append", "extend"):
+                    bad.append((fn.name, n.lineno, "calls ." + p.attr + " on " + name))
+    return bad
+
+
+def loop_reads_iterable_only_through_target(fn, loop_head_prefix):
+    """the for loop whose unparsed head starts with loop_head_prefix: its iterable expression does not occur in
+    its own body (no look-ahead, no second pass)"""
+    for n in ast.walk(fn):
+        if isinstance(n, ast.For) and ast.unparse(n).split("\n")[0].startswith(loop_head_prefix):
+            it = ast.unparse(n.iter)
+            for st in n.body:
+                for m in ast.walk(st):
+                    if isinstance(m, (ast.Attribute, ast.Name)) and ast.unparse(m) == it:
+                        return False
+            return True
+    return None
